@@ -1,12 +1,15 @@
 (* C13 — casts are exact-or-error and text round-trips every value.
    Property statements only: each is closed by `exact <lemma>` from proofs/ and pinned with
-   Print Assumptions.  Models: model/Cast.v (num-traits NumCast + cast/builtin/to_decimal.rs,
-   to_primitive.rs), model/TextConv.v (cast/parse.rs, cast/format.rs, core integer text, chrono
-   date text), model/Calendar.v.  `..._refuted` theorems state that the full-strength property is
-   false for the code as written (each witness is replayed on the engine by vlib/c13.py). *)
+   Print Assumptions.  Models (re-transcribed after the repairs a2e764fa7, 40311688b, ba9d5049d,
+   7b11b6c5d): model/Cast.v (num-traits NumCast + cast/builtin/to_decimal.rs, to_primitive.rs,
+   arrays/scalar/decimal.rs, expr/cast_expr.rs), model/TextConv.v (cast/parse.rs, cast/format.rs,
+   core integer text, chrono date text), model/Calendar.v; gen/TablesCast.v is regenerated from
+   the source on every run.  `..._refuted` / `..._open` theorems state that the full-strength
+   property is false for the code as written (each witness is replayed on the engine by
+   vlib/c13.py); `C13_old_...` are closed witnesses about the code before the repairs (Module Old). *)
 From Coq Require Import NArith ZArith List Bool.
-From GV Require Import model.Cast model.Calendar model.TextConv
-  proofs.CastProofs proofs.TextConvProofs proofs.CalendarProofs.
+From GV Require Import model.Cast model.Calendar model.TextConv gen.TablesCast
+  proofs.CastProofs proofs.TextConvProofs proofs.TextConvDecimalProofs proofs.TextConvDateProofs proofs.CalendarProofs.
 Import ListNotations.
 Open Scope Z_scope.
 
@@ -29,66 +32,123 @@ Theorem C13_cast_float_int_trunc : forall f d bits, 0 <= f_mbits f -> 1 <= i_bit
 Proof. exact cast_float_int_trunc. Qed.
 Print Assumptions C13_cast_float_int_trunc.
 
-(* 3. integer -> DECIMAL(p,s) (scale < 10, see 7): exactly v * 10^s and within the precision *)
-Theorem C13_int_to_decimal_fits_or_error : forall s d p sc v r,
-  std_width (i_bits s) -> std_dty d -> in_range s v = true -> 0 <= p -> 0 <= sc ->
-  int_to_decimal true s d p sc v = Ok r -> Z.abs r < 10 ^ p /\ r = v * 10 ^ sc.
-Proof. exact int_to_decimal_fits_or_error. Qed.
-Print Assumptions C13_int_to_decimal_fits_or_error.
+(* 3. validate_precision is total and exact: no panic for any value of the primitive (the minimum
+      included, with or without overflow checks) *)
+Theorem C13_validate_precision_total : forall oc d value p, std_dty d -> in_range (d_prim d) value = true ->
+  validate_precision oc d value p <> Panic.
+Proof. exact validate_precision_total. Qed.
+Print Assumptions C13_validate_precision_total.
 
-(* 4. float -> DECIMAL(p,s): within the precision (the value is round(fl(v * 10^s)), see 8) *)
-Theorem C13_float_to_decimal_fits_or_error : forall f d p sc bits r, std_dty d -> 0 <= p ->
-  float_to_decimal true f d p sc bits = Ok r -> Z.abs r < 10 ^ p.
+Theorem C13_validate_precision_exact : forall oc d value p, std_dty d -> in_range (d_prim d) value = true ->
+  0 <= p <= d_maxp d ->
+  validate_precision oc d value p = (if Z.abs value <? 10 ^ p then Ok tt else Err).
+Proof. exact validate_precision_spec. Qed.
+Print Assumptions C13_validate_precision_exact.
+
+(* 4. integer -> DECIMAL(p,s), every scale 0 <= s <= p <= 18 / 38, every value of every integer
+      type: exactly v * 10^s when that fits the precision, otherwise an error; never a panic
+      (cast_to_decimal_fits_or_error at full strength, as an equation) *)
+Theorem C13_int_to_decimal_exact_or_error : forall oc s d p sc v,
+  std_width (i_bits s) -> std_dty d -> in_range s v = true -> 0 <= sc <= p -> p <= d_maxp d ->
+  int_to_decimal oc s d p sc v = (if Z.abs (v * 10 ^ sc) <? 10 ^ p then Ok (v * 10 ^ sc) else Err).
+Proof. exact int_to_decimal_exact_or_error. Qed.
+Print Assumptions C13_int_to_decimal_exact_or_error.
+
+(* 5. float -> DECIMAL(p,s): within the precision (the value is round(fl(v * fl(10^s))), see 8) *)
+Theorem C13_float_to_decimal_fits_or_error : forall oc f d p sc bits r, std_dty d -> 0 <= p ->
+  float_to_decimal oc f d p sc bits = Ok r -> Z.abs r < 10 ^ p.
 Proof. exact float_to_decimal_fits_or_error. Qed.
 Print Assumptions C13_float_to_decimal_fits_or_error.
 
-(* 5. decimal -> decimal with a smaller scale rounds half away from zero *)
-Theorem C13_rescale_rounds_half_away : forall d1 d2 s1 p2 s2 v r,
-  std_dty d1 -> std_dty d2 -> in_range (d_prim d1) v = true -> s2 < s1 ->
-  decimal_to_decimal true d1 d2 s1 p2 s2 v = Ok r ->
-  r = Z.sgn v * ((2 * Z.abs v + 10 ^ (s1 - s2)) / (2 * 10 ^ (s1 - s2))).
-Proof. exact rescale_rounds_half_away. Qed.
-Print Assumptions C13_rescale_rounds_half_away.
+(* 6. decimal -> decimal, any two (p,s): a result respects the target precision AND is the exactly
+      scaled (upscale) / round-half-away (downscale) value; never a panic
+      (rescale_respects_precision + rescale_rounds_half_away) *)
+Theorem C13_rescale_respects_precision_and_rounds_half_away : forall oc d1 d2 s1 p2 s2 v r,
+  std_dty d1 -> std_dty d2 -> in_range (d_prim d1) v = true -> 0 <= p2 ->
+  decimal_to_decimal oc d1 d2 s1 p2 s2 v = Ok r ->
+  Z.abs r < 10 ^ p2 /\
+  r = (if s1 <=? s2 then v * 10 ^ (s2 - s1)
+       else Z.sgn v * ((2 * Z.abs v + 10 ^ (s1 - s2)) / (2 * 10 ^ (s1 - s2)))).
+Proof. exact rescale_exact_and_respects_precision. Qed.
+Print Assumptions C13_rescale_respects_precision_and_rounds_half_away.
 
-(* 6. REFUTED: decimal -> decimal does not respect the target precision
-      (123.45 :: DECIMAL(5,2) :: DECIMAL(3,1) = 123.5) *)
-Theorem C13_rescale_respects_precision_refuted :
-  exists d1 d2 s1 p2 s2 v r, decimal_to_decimal true d1 d2 s1 p2 s2 v = Ok r /\ 10 ^ p2 <= Z.abs r
-                             /\ rescale_spec s1 p2 s2 v = Err.
-Proof. exact rescale_respects_precision_refuted. Qed.
-Print Assumptions C13_rescale_respects_precision_refuted.
+Theorem C13_rescale_never_panics : forall oc d1 d2 s1 p2 s2 v,
+  std_dty d1 -> std_dty d2 -> in_range (d_prim d1) v = true ->
+  decimal_to_decimal oc d1 d2 s1 p2 s2 v <> Panic.
+Proof. exact rescale_never_panics. Qed.
+Print Assumptions C13_rescale_never_panics.
 
-(* 7. REFUTED (exact-or-error): scale >= 10 panics (wrong factor without overflow checks); i64::MIN
-      panics in validate_precision; Decimal128 -> Decimal64 fails before downscaling *)
-Theorem C13_to_decimal_panics :
-  (int_to_decimal true (mk_ity true 32) D64 18 10 1 = Panic /\ int_to_decimal false (mk_ity true 32) D64 18 10 1 = Ok 1410065408)
-  /\ int_to_decimal true I64 D64 18 0 (- 2 ^ 63) = Panic
-  /\ (decimal_to_decimal true D128 D64 5 18 0 9999999999999999999 = Err /\ rescale_spec 5 18 0 9999999999999999999 = Ok 100000000000000).
-Proof. exact (conj int_to_decimal_scale10_panics (conj int_to_decimal_min_panics rescale_narrows_before_downscale)). Qed.
-Print Assumptions C13_to_decimal_panics.
+(* 7. OPEN (the converse of 6 is false): Decimal128 -> Decimal64 converts the unscaled value to
+      i64 before dividing, a representable result is refused *)
+Theorem C13_rescale_narrows_before_downscale_open :
+  decimal_to_decimal true D128 D64 5 18 0 9999999999999999999 = Err /\ rescale_spec 5 18 0 9999999999999999999 = Ok 100000000000000.
+Proof. exact rescale_narrows_before_downscale. Qed.
+Print Assumptions C13_rescale_narrows_before_downscale_open.
 
-(* 8. float -> decimal rounds twice: f64 1.115 (exactly 1.1149999999999999911...) -> 1.12 *)
-Theorem C13_float_to_decimal_double_rounding :
+(* 8. OPEN: float -> decimal rounds twice: f64 1.115 (exactly 1.1149999999999999911...) -> 1.12 *)
+Theorem C13_float_to_decimal_double_rounding_open :
   float_to_decimal true F64 D64 5 2 4607700332757165015 = Ok 112.
 Proof. exact float_to_decimal_double_rounding. Qed.
-Print Assumptions C13_float_to_decimal_double_rounding.
+Print Assumptions C13_float_to_decimal_double_rounding_open.
 
-(* 9. text round trip, integers: every value of every integer type (any width), no digit bound *)
+(* 9. nested casts: CAST(CAST(x AS A) AS B) is flattened to CAST(x AS B) only if both x -> B and the
+      dropped x -> A are flagged Safe in the current source; every integer cast flagged Safe in the
+      current source is a widening; the planned expression equals the nested one *)
+Theorem C13_cast_flatten_sound :
+  flatten_requires_direct_safe = Some true /\ flatten_requires_inner_safe = Some true /\
+  (forall x a b v, std_width (i_bits b) -> in_range x v = true ->
+     planned_nested_cast safe_flag x a b v = nested_cast x a b v).
+Proof. exact cast_flatten_sound. Qed.
+Print Assumptions C13_cast_flatten_sound.
+
+Theorem C13_safe_casts_are_widening : forall x a, safe_flag x a = true -> widening x a = true.
+Proof. exact safe_flag_widening. Qed.
+Print Assumptions C13_safe_casts_are_widening.
+
+(* 10. text round trip, integers: every value of every integer type (any width), no digit bound *)
 Theorem C13_format_parse_int_roundtrip : forall t v, in_range t v = true -> parse_int t (format_int v) = Some v.
 Proof. exact format_parse_int_roundtrip. Qed.
 Print Assumptions C13_format_parse_int_roundtrip.
 
-(* 10. text -> integer accepts only  [+-]? digit+  (no surrounding bytes, no empty string, no lone sign) *)
+(* 11. text -> integer accepts only an optional sign followed by digits *)
 Theorem C13_parse_int_rejects_garbage : forall t bs v, parse_int t bs = Some v -> wellformed_int bs = true.
 Proof. exact parse_int_rejects_garbage. Qed.
 Print Assumptions C13_parse_int_rejects_garbage.
 
-(* 11. booleans *)
+(* 12. booleans *)
 Theorem C13_format_parse_bool_roundtrip : forall b, parse_bool (format_bool b) = Some b.
 Proof. exact format_parse_bool_roundtrip. Qed.
 Print Assumptions C13_format_parse_bool_roundtrip.
 
-(* 12. calendar: day number <-> (y, m, d) for ALL integers (the basis of the date text round trip) *)
+(* 13. text -> DECIMAL(p,s), every byte string: the round-half-away value of a well-formed literal
+       when it fits the precision, otherwise (and for every other text) an error *)
+Theorem C13_parse_decimal_spec : forall oc d p s bs, std_dty d -> 0 <= s <= p -> p <= d_maxp d ->
+  parse_decimal oc d p s bs = match spec_parse_decimal p s bs with Some v => Ok v | None => Err end.
+Proof. exact parse_decimal_spec. Qed.
+Print Assumptions C13_parse_decimal_spec.
+
+Theorem C13_parse_decimal_rejects_garbage : forall oc d p s bs v,
+  parse_decimal oc d p s bs = Ok v -> wellformed_decimal bs = true.
+Proof. exact parse_decimal_rejects_garbage. Qed.
+Print Assumptions C13_parse_decimal_rejects_garbage.
+
+Theorem C13_parse_decimal_never_panics : forall oc d p s bs, std_dty d -> parse_decimal oc d p s bs <> Panic.
+Proof. exact parse_decimal_never_panics. Qed.
+Print Assumptions C13_parse_decimal_never_panics.
+
+(* 14. text round trip, decimals: every value of every DECIMAL(p,s) *)
+Theorem C13_format_parse_decimal_roundtrip : forall oc d p s v bs,
+  std_dty d -> 0 <= s <= p -> p <= d_maxp d -> Z.abs v < 10 ^ p ->
+  format_decimal oc d s v = Ok bs -> parse_decimal oc d p s bs = Ok v.
+Proof. exact format_parse_decimal_roundtrip. Qed.
+Print Assumptions C13_format_parse_decimal_roundtrip.
+
+Theorem C13_format_decimal_ok : forall oc d p s v,
+  std_dty d -> 0 <= s <= p -> p <= d_maxp d -> Z.abs v < 10 ^ p -> exists bs, format_decimal oc d s v = Ok bs.
+Proof. exact format_decimal_ok. Qed.
+Print Assumptions C13_format_decimal_ok.
+
+(* 15. calendar: day number <-> (y, m, d) for ALL integers *)
 Theorem C13_calendar_roundtrip_days : forall z,
   let '(y, m, d) := civil_from_days z in days_from_civil y m d = z /\ valid_ymd y m d = true.
 Proof. exact calendar_roundtrip_days. Qed.
@@ -99,46 +159,43 @@ Theorem C13_calendar_roundtrip_ymd : forall y m d, valid_ymd y m d = true ->
 Proof. exact calendar_roundtrip_ymd. Qed.
 Print Assumptions C13_calendar_roundtrip_ymd.
 
-(* 13. PARTIAL: date text and decimal text round trips are established on the model for closed
-       sets only (all values of DECIMAL(1..3, s); 14 boundary days and the ends of the supported
-       range); the statements for every (p,s) / every day in range are not proved *)
-Theorem C13_format_parse_decimal_roundtrip_small_partial :
-  all_bits 11 0 (dec_rt_check 3 0) = true /\ all_bits 11 0 (dec_rt_check 3 1) = true /\
-  all_bits 11 0 (dec_rt_check 3 2) = true /\ all_bits 11 0 (dec_rt_check 3 3) = true /\
-  all_bits 8 0 (dec_rt_check 2 1) = true /\ all_bits 5 0 (dec_rt_check 1 1) = true.
-Proof. exact format_parse_decimal_roundtrip_small_partial. Qed.
-Print Assumptions C13_format_parse_decimal_roundtrip_small_partial.
+(* 16. text round trip, dates: every day the formatter accepts (all days of the supported years) *)
+Theorem C13_format_parse_date_roundtrip : forall z bs, format_date z = Some bs -> parse_date bs = Some z.
+Proof. exact format_parse_date_roundtrip. Qed.
+Print Assumptions C13_format_parse_date_roundtrip.
 
-Theorem C13_format_parse_date_roundtrip_samples_partial :
-  forallb date_rt_check [0; -1; 18321; 11016; -719162; -719528; -719893; 2932896; 2932897; min_days; max_days; -141427; 59; 60] = true
-  /\ format_date (max_days + 1) = None /\ format_date (min_days - 1) = None.
-Proof. exact format_parse_date_roundtrip_samples_partial. Qed.
-Print Assumptions C13_format_parse_date_roundtrip_samples_partial.
-
-(* 14. REFUTED: text -> decimal accepts the empty string / lone sign / lone point, truncates,
-       exceeds the precision, panics *)
-Theorem C13_parse_decimal_rejects_garbage_refuted :
-  exists bs, wellformed_decimal bs = false /\ parse_decimal true D64 5 2 bs = Ok 0.
-Proof. exact parse_decimal_rejects_garbage_refuted. Qed.
-Print Assumptions C13_parse_decimal_rejects_garbage_refuted.
-
-Theorem C13_parse_decimal_truncates :
-  parse_decimal true D64 5 2 [49; 50; 46; 51; 52; 57]%N = Ok 1234 /\ rha_div 12349 10 = 1235.
-Proof. exact parse_decimal_truncates. Qed.
-Print Assumptions C13_parse_decimal_truncates.
-
-Theorem C13_parse_decimal_precision_refuted :
-  exists bs r, parse_decimal true D64 3 2 bs = Ok r /\ 10 ^ 3 <= Z.abs r.
-Proof. exact parse_decimal_precision_refuted. Qed.
-Print Assumptions C13_parse_decimal_precision_refuted.
-
-Theorem C13_parse_decimal_long_panics :
-  parse_decimal true D64 18 0 (repeat 57%N 23) = Panic /\ parse_decimal true D64 18 18 (repeat 57%N 5) = Panic.
-Proof. exact parse_decimal_long_panics. Qed.
-Print Assumptions C13_parse_decimal_long_panics.
-
-(* 15. REFUTED: interval text does not round trip ('2 mons'), for every quantity parser *)
+(* 17. OPEN / REFUTED: interval text does not round trip ('2 mons'), for every quantity parser *)
 Theorem C13_format_parse_interval_roundtrip_refuted : forall qparse,
   exists iv, parse_interval qparse (format_interval iv) <> Some iv.
 Proof. exact format_parse_interval_roundtrip_refuted. Qed.
 Print Assumptions C13_format_parse_interval_roundtrip_refuted.
+
+(* 18. the code before the repairs (Module Old): closed witnesses of the repaired defects *)
+Theorem C13_old_rescale_respects_precision_refuted :
+  exists d1 d2 s1 p2 s2 v r, Cast.Old.decimal_to_decimal true d1 d2 s1 p2 s2 v = Ok r /\ 10 ^ p2 <= Z.abs r
+                             /\ rescale_spec s1 p2 s2 v = Err.
+Proof. exact old_rescale_respects_precision_refuted. Qed.
+Print Assumptions C13_old_rescale_respects_precision_refuted.
+
+Theorem C13_old_to_decimal_panics :
+  (Cast.Old.int_to_decimal true (mk_ity true 32) D64 18 10 1 = Panic /\ Cast.Old.int_to_decimal false (mk_ity true 32) D64 18 10 1 = Ok 1410065408)
+  /\ Cast.Old.int_to_decimal true I64 D64 18 0 (- 2 ^ 63) = Panic.
+Proof. exact (conj old_int_to_decimal_scale10_panics old_int_to_decimal_min_panics). Qed.
+Print Assumptions C13_old_to_decimal_panics.
+
+Theorem C13_old_parse_decimal_defects :
+  (exists bs, wellformed_decimal bs = false /\ TextConv.Old.parse_decimal true D64 5 2 bs = Ok 0)
+  /\ (TextConv.Old.parse_decimal true D64 5 2 [49; 50; 46; 51; 52; 57]%N = Ok 1234 /\ rha_div 12349 10 = 1235)
+  /\ (exists bs r, TextConv.Old.parse_decimal true D64 3 2 bs = Ok r /\ 10 ^ 3 <= Z.abs r)
+  /\ (TextConv.Old.parse_decimal true D64 18 0 (repeat 57%N 23) = Panic /\ TextConv.Old.parse_decimal true D64 18 18 (repeat 57%N 5) = Panic).
+Proof.
+  exact (conj old_parse_decimal_rejects_garbage_refuted (conj old_parse_decimal_truncates
+        (conj old_parse_decimal_precision_refuted old_parse_decimal_long_panics))).
+Qed.
+Print Assumptions C13_old_parse_decimal_defects.
+
+Theorem C13_old_flatten_unsound :
+  cast_int (mk_ity true 32) (mk_ity true 64) 70000 = Ok 70000
+  /\ nested_cast (mk_ity true 32) (mk_ity true 16) (mk_ity true 64) 70000 = Err.
+Proof. exact old_flatten_unsound. Qed.
+Print Assumptions C13_old_flatten_unsound.
